@@ -24,6 +24,7 @@ import (
 	"context"
 	"crypto/sha256"
 	"encoding/hex"
+	"encoding/json"
 	"fmt"
 	"os"
 	"os/user"
@@ -818,7 +819,11 @@ func main() {
 		_ = syscall.Setrlimit(syscall.RLIMIT_NOFILE, &rl)
 	}
 	scratch := vrun.Scratch("c07")
-	defer os.RemoveAll(scratch)
+	finish := func() { // Finish exits the process: remove the scratch directory first
+		_ = os.Chdir("/")
+		_ = os.RemoveAll(scratch)
+		r.Finish()
+	}
 	// relative archive member names are probed with Exists() by the recursive-unzip logic: give the process an empty working directory
 	cwd := filepath.Join(scratch, "cwd")
 	if err := os.MkdirAll(cwd, 0o755); err == nil {
@@ -862,8 +867,17 @@ func main() {
 		if err := r.ReadReplay(&wit); err != nil {
 			r.Fatalf("replay: %v", err)
 		}
+		// the case is regenerated from (seed, index): take the seed from the witness file
+		if b, err := os.ReadFile(r.Replay); err == nil {
+			var top struct {
+				Seed int64 `json:"seed"`
+			}
+			if json.Unmarshal(b, &top) == nil && top.Seed != 0 {
+				r.Seed = top.Seed
+			}
+		}
 		runCase(r, genCase(r, wit.Case.Index), scratch)
-		r.Finish()
+		finish()
 	}
 	n := r.Pick(600, 25000)
 	vrun.Parallel(n, 0, func(i int) { runCase(r, genCase(r, i), scratch) })
@@ -894,5 +908,5 @@ func main() {
 	r.Require("empty_files", 100)
 	r.Require("empty_dirs", 100)
 	r.Require("fs_interface_methods_classified", 100)
-	r.Finish()
+	finish()
 }
